@@ -2,11 +2,11 @@
   Proofs/ParserGenParse.lean — the whole of `parser._parse` re-translated from /repo's parser/_parser.py
   (Generated/ParserOps.lean: `Gen.P.parse`: flag defaults, lexing, the token loop, `resolve_ymd`, the result fields, the
   `except (IndexError, ValueError, InvalidOperation)` boundary, `validate`, the fuzzy token recombination) =
-  `PM.parseTokens` on the lexed text.  Named primitives on both sides: the lexer `PM.lex` (`_timelex.split`) and
-  `PM.recombineSkipped` (`_recombine_skipped`), which are not translated yet.
+  `PM.parseTokens` on the lexed text.  Named primitive on both sides: the lexer `PM.lex` (`_timelex.split`), which is not translated yet.
 -/
 import DateutilVerif.Proofs.ParserGenLoop
 import DateutilVerif.Proofs.ParserGenStrids
+import DateutilVerif.Proofs.ParserGenRecombine
 
 namespace PGen
 open PM Py
@@ -33,7 +33,7 @@ macro "parse_core" fzv:term : tactic =>
         try (cases e <;> simp [caughtInParse])
       | ok r =>
         obtain ⟨y, m, d⟩ := r
-        simp [bind_ok, pure_eq, validate_eq info _ hc, bind_eq]))
+        simp [bind_ok, pure_eq, validate_eq info _ hc, bind_eq, recombineSkipped_eq]))
 
 /-- `parser._parse` as written now = `PM.parseTokens` on the lexed text, given at least as much fuel as there are tokens;
     same `_century ≥ 100` hypothesis as `validate` and the loop body -/
